@@ -17,6 +17,7 @@ import (
 	"sync"
 	"time"
 
+	"github.com/quic-go/quic-go"
 	"github.com/sheerbytes/sheerbytes/internal/app"
 	"github.com/sheerbytes/sheerbytes/internal/quictransport"
 	"github.com/sheerbytes/sheerbytes/internal/transfer"
@@ -976,6 +977,11 @@ func extrasListenPeer(ctx context.Context, conn transfer.Conn, kind, code string
 }
 
 func runExtras(row extrasRow) (returned []int, trouble string) {
+	for _, k := range row.Kinds {
+		if k == "relay" {
+			return runExtrasRelay(row)
+		}
+	}
 	code := authCodes["c1"]
 	n := len(row.Kinds)
 	ctx, cancel := context.WithTimeout(context.Background(), 20*time.Second)
@@ -1064,6 +1070,13 @@ func runExtras(row extrasRow) (returned []int, trouble string) {
 		mu.Lock()
 		id, ok := accepted[la]
 		mu.Unlock()
+		// the loop may return a connection before the listener's Accept has come back with it
+		for k := 0; k < 150 && !ok; k++ {
+			time.Sleep(20 * time.Millisecond)
+			mu.Lock()
+			id, ok = accepted[la]
+			mu.Unlock()
+		}
 		if !ok {
 			closeAll()
 			return nil, "returned connection not matched to a peer"
@@ -1071,6 +1084,205 @@ func runExtras(row extrasRow) (returned []int, trouble string) {
 		returned = append(returned, id)
 	}
 	closeAll()
+	return returned, ""
+}
+
+// ---- an attacker on the path of one extra connection ------------------------------------------------
+
+// relayDemux is the attacker's UDP socket in front of the receiver's address. Flows (by source address,
+// in order of first appearance) listed in `terminate` are handed to the attacker's own QUIC stack; all
+// other flows are forwarded raw to the honest receiver through one upstream socket each.
+type relayDemux struct {
+	net.PacketConn
+	upstream  net.Addr
+	terminate map[int]bool
+	mu        sync.Mutex
+	flows     map[string]int
+	ups       map[string]*net.UDPConn
+}
+
+func (d *relayDemux) ReadFrom(p []byte) (int, net.Addr, error) {
+	for {
+		n, addr, err := d.PacketConn.ReadFrom(p)
+		if err != nil {
+			return n, addr, err
+		}
+		d.mu.Lock()
+		idx, ok := d.flows[addr.String()]
+		if !ok {
+			idx = len(d.flows)
+			d.flows[addr.String()] = idx
+			if !d.terminate[idx] {
+				if up, err := net.ListenUDP("udp", &net.UDPAddr{IP: net.IPv4(127, 0, 0, 1)}); err == nil {
+					d.ups[addr.String()] = up
+					go func(to net.Addr) {
+						buf := make([]byte, 65536)
+						for {
+							m, _, err := up.ReadFrom(buf)
+							if err != nil {
+								return
+							}
+							_, _ = d.PacketConn.WriteTo(buf[:m], to)
+						}
+					}(addr)
+				}
+			}
+		}
+		up := d.ups[addr.String()]
+		d.mu.Unlock()
+		if d.terminate[idx] {
+			return n, addr, nil
+		}
+		if up != nil {
+			_, _ = up.WriteTo(p[:n], d.upstream)
+		}
+	}
+}
+
+func (d *relayDemux) closeUps() {
+	d.mu.Lock()
+	for _, u := range d.ups {
+		u.Close()
+	}
+	d.mu.Unlock()
+}
+
+// runExtrasRelay: the real dialExtraConns loop against the real acceptExtraConns loop; the connections of
+// kind "relay" are terminated by an attacker without the code who passes the authentication messages on
+// verbatim between its two sessions. Returned: ids of the connections the judged side's loop kept.
+func runExtrasRelay(row extrasRow) (returned []int, trouble string) {
+	n := len(row.Kinds)
+	// the receiver's loop stops at the first failure and the sender's later dials would then wait for their
+	// timeouts: only rows whose relay is the last connection are run
+	for i, k := range row.Kinds {
+		if k == "relay" && i != n-1 {
+			return nil, "skip"
+		}
+	}
+	code := authCodes["c1"]
+	ctx, cancel := context.WithTimeout(context.Background(), 40*time.Second)
+	defer cancel()
+	ln, err := newQListener()
+	if err != nil {
+		return nil, err.Error()
+	}
+	defer ln.Close()
+	mUDP, err := net.ListenUDP("udp", &net.UDPAddr{IP: net.IPv4(127, 0, 0, 1)})
+	if err != nil {
+		return nil, err.Error()
+	}
+	defer mUDP.Close()
+	demux := &relayDemux{PacketConn: mUDP, upstream: ln.udp.LocalAddr(), terminate: map[int]bool{n - 1: true}, flows: map[string]int{}, ups: map[string]*net.UDPConn{}}
+	defer demux.closeUps()
+	mTr := &quic.Transport{Conn: demux}
+	defer mTr.Close()
+	mLn, err := mTr.Listen(quictransport.ServerConfig(), quictransport.DefaultServerQUICConfig())
+	if err != nil {
+		return nil, err.Error()
+	}
+	defer mLn.Close()
+	var ekmA, ekmB string
+	var emu sync.Mutex
+	attackerDone := make(chan struct{})
+	go func() {
+		defer close(attackerDone)
+		a, err := mLn.Accept(ctx)
+		if err != nil {
+			return
+		}
+		defer a.CloseWithError(0, "")
+		if st := a.ConnectionState(); true {
+			if b, err := st.TLS.ExportKeyingMaterial(authLabelV, nil, 32); err == nil {
+				emu.Lock()
+				ekmA = fmt.Sprintf("%x", b)
+				emu.Unlock()
+			}
+		}
+		aStream, err := a.AcceptStream(ctx)
+		if err != nil {
+			return
+		}
+		msg1 := make([]byte, authMsgLen)
+		if _, err := io.ReadFull(aStream, msg1); err != nil {
+			return
+		}
+		bUDP, err := net.ListenUDP("udp", &net.UDPAddr{IP: net.IPv4(127, 0, 0, 1)})
+		if err != nil {
+			return
+		}
+		defer bUDP.Close()
+		b, err := quictransport.DialWithConfig(ctx, bUDP, ln.udp.LocalAddr(), authQuiet, quictransport.DefaultClientQUICConfig())
+		if err != nil {
+			return
+		}
+		defer b.CloseWithError(0, "")
+		if st := b.ConnectionState(); true {
+			if x, err := st.TLS.ExportKeyingMaterial(authLabelV, nil, 32); err == nil {
+				emu.Lock()
+				ekmB = fmt.Sprintf("%x", x)
+				emu.Unlock()
+			}
+		}
+		bStream, err := b.OpenStreamSync(ctx)
+		if err != nil {
+			return
+		}
+		if _, err := bStream.Write(msg1); err != nil {
+			return
+		}
+		msg2 := make([]byte, authMsgLen)
+		_ = bStream.SetReadDeadline(time.Now().Add(12 * time.Second))
+		if _, err := io.ReadFull(bStream, msg2); err != nil {
+			return
+		}
+		_, _ = aStream.Write(msg2)
+		// keep both sessions open until the loops have returned
+		<-ctx.Done()
+	}()
+	type ret struct {
+		conns []transfer.Conn
+		err   error
+	}
+	accDone := make(chan ret, 1)
+	go func() {
+		c, err := app.VerifAcceptExtraConns(ctx, code, ln.lt, n)
+		accDone <- ret{c, err}
+	}()
+	sConns, closeAll, _ := app.VerifDialExtraConns(ctx, code, mUDP.LocalAddr().(*net.UDPAddr), n)
+	var r ret
+	select {
+	case r = <-accDone:
+	case <-time.After(25 * time.Second):
+		if closeAll != nil {
+			closeAll()
+		}
+		return nil, "acceptExtraConns did not return (relay row)"
+	}
+	judged := sConns
+	if row.Side == "accept" {
+		judged = r.conns
+	}
+	emu.Lock()
+	ea, eb := ekmA, ekmB
+	emu.Unlock()
+	honest := 0
+	for _, c := range judged {
+		k := ekmKey(c)
+		if (ea != "" && k == ea) || (eb != "" && k == eb) {
+			returned = append(returned, n) // the relayed connection
+		} else {
+			honest++
+			returned = append(returned, honest)
+		}
+	}
+	for _, c := range r.conns {
+		c.Close()
+	}
+	if closeAll != nil {
+		closeAll()
+	}
+	cancel()
+	<-attackerDone
 	return returned, ""
 }
 
@@ -1102,6 +1314,9 @@ func AuthExtras(args []string) {
 			continue
 		}
 		got, tr := runExtras(row)
+		if tr == "skip" {
+			continue
+		}
 		if tr != "" {
 			trouble++
 			if trouble <= 3 {
